@@ -2,6 +2,7 @@ import GB.C06.Proofs
 import GB.C06.ProofsSvc
 import GB.C06.Compose
 import GB.C06.ProofsElem
+import GB.C06.ProofsElemInv
 import GB.Generated.Facts
 /-
   C06 — property theorems.  `PatState` / `SvcState` are the executable models of
@@ -536,6 +537,70 @@ theorem C06_elem_refines_given_attached (valid : Bytes → Bool) :
     show ((st.step valid op).1.run valid ops).erase = (st.erase.step valid op).1.run valid ops
     rw [ih, hs]
 
+/-- **No detached element in the per-target bookkeeping, ever**: after ANY history every back-link of every target
+    points at an element that IS in the list of the link's HTTP method and carries that target's routes; ids are unique
+    inside a list and below the allocator (so a fresh `PushBack` never aliases a link). -/
+theorem C06_elem_links_attached (valid : Bytes → Bool) (h : List Op) (n : Name) :
+    let st := EState.init.run valid h
+    (∀ p ∈ sliceOf (st.links n), ∃ e ∈ sliceOf (st.routes p.1), e.id = p.2 ∧ e.val.name = n) ∧
+    (∀ m, ((sliceOf (st.routes m)).map Elem.id).Nodup ∧ ∀ e ∈ sliceOf (st.routes m), e.id < st.next) :=
+  ⟨(EInv_run valid h).att n, (EInv_run valid h).good⟩
+
+/-- … hence `Tied` for every target after ANY history: the link's id and the target's name identify the same element. -/
+theorem C06_elem_attached (valid : Bytes → Bool) (h : List Op) : AllTied (EState.init.run valid h) :=
+  AllTied_of (EInv_run valid h) (UInv_run h (PInv_init valid) UInv_init)
+
+/-- **Refinement over ALL update histories**: forgetting element identities in the element-level table after any history
+    of Watch/UpdateDesc/Close gives exactly `PatState` after that history — mutable lists, back-links (as methods),
+    committed snapshot, fault flag, watcher set. -/
+theorem C06_elem_refines (valid : Bytes → Bool) (h : List Op) :
+    (EState.init.run valid h).erase = PatState.init.run valid h :=
+  (EInv_run valid h).er
+
+/-- **The committed table of the element-level code is the table of the latest descriptions**, for every HTTP method and
+    every history: one element per live target whose LATEST description has an accepted binding for the method, holding
+    that description's routes in description order, targets in the order `orderOf` (`C06_table_order`); no nil
+    dereference happened. -/
+theorem C06_elem_snapshot_is_latest (valid : Bytes → Bool) (h : List Op) (m : HMethod) :
+    groupsOf (EState.init.run valid h).static m =
+      (orderOf (PatState.init.run valid h) m).filterMap (specGroup valid (latestOf h) m) ∧
+    (EState.init.run valid h).static = eCommit (EState.init.run valid h).routes ∧
+    (EState.init.run valid h).fault = false := by
+  have he := C06_elem_refines valid h
+  have inv := C06_pattern_invariant valid h
+  have hs : (EState.init.run valid h).static = (PatState.init.run valid h).static := by rw [← he]; rfl
+  refine ⟨by rw [hs]; exact (C06_snapshot_is_latest valid h m).1, ?_, ?_⟩
+  · rw [hs, inv.committed, ← he]; rfl
+  · have := inv.noFault; rw [← he] at this; exact this
+
+/-- **An HTTP method that disappears from a target's description and comes back** (3-step history: whatever `h` did —
+    e.g. a description WITH the method — then `d2` without, then `d3` with it again): the target's element is unlinked by
+    `d2` and a NEW element is linked at the END of the method's list by `d3` (never an update of the detached one); the
+    other targets keep their order.  Content of the list: `C06_snapshot_is_latest`. -/
+theorem C06_method_returns (valid : Bytes → Bool) (h : List Op) (m : HMethod) (d2 d3 : Desc)
+    (hn : d3.name = d2.name) (hw : (latestOf h).watched d2.name = true)
+    (h2 : built valid d2 m = none) (h3 : (built valid d3 m).isSome = true) :
+    orderOf (PatState.init.run valid (h ++ [.update d2.name d2])) m =
+      (orderOf (PatState.init.run valid h) m).filter (fun x => decide (x ≠ d2.name)) ∧
+    orderOf (PatState.init.run valid (h ++ [.update d2.name d2, .update d3.name d3])) m =
+      (orderOf (PatState.init.run valid h) m).filter (fun x => decide (x ≠ d2.name)) ++ [d2.name] := by
+  have s1 : orderOf (PatState.init.run valid (h ++ [.update d2.name d2])) m =
+      (orderOf (PatState.init.run valid h) m).filter (fun x => decide (x ≠ d2.name)) := by
+    rw [(C06_table_order valid h m).1 d2 hw]
+    simp only [h2, Option.isSome_none, Bool.false_eq_true, if_false]
+    split
+    · rfl
+    · rename_i hnm; exact (filter_ne_not_mem _ _ hnm).symm
+  refine ⟨s1, ?_⟩
+  have hw' : (latestOf (h ++ [.update d2.name d2])).watched d3.name = true := by
+    rw [latestOf_snoc, watched_update, hn]; exact hw
+  have e : h ++ [Op.update d2.name d2, Op.update d3.name d3] = (h ++ [.update d2.name d2]) ++ [.update d3.name d3] := by simp
+  have t := (C06_table_order valid (h ++ [Op.update d2.name d2]) m).1 d3 hw'
+  rw [e, t, s1, hn]
+  have hnot : d2.name ∉ (orderOf (PatState.init.run valid h) m).filter (fun x => decide (x ≠ d2.name)) := by
+    intro hm; simpa using (List.mem_filter.mp hm).2
+  simp [hnot, h3]
+
 /-! ### what goes wrong without attachedness: the seeded change C03-m9, kernel-checked
 
   `EState.runStale`: `targetLinks` as a per-target map HTTP method → element whose entry is NOT deleted when the method
@@ -608,3 +673,11 @@ theorem C06_facts_table_maintenance :
     "methodPatternRoutes.link *list.Element" ∈ GB.Generated.c06TableFields ∧
     "mutablePatternRoutingTable.targetLinks map[string][]methodPatternRoutes" ∈ GB.Generated.c06TableFields := by
   decide
+
+/-- `C06_method_returns` applies to the C03-m9 history (hypotheses satisfiable) and gives the GET list `["a"]` -/
+example : orderOf (PatState.init.run (fun _ => true) m9hist) m9GET = [[97]] := by
+  have h := (C06_method_returns (fun _ => true) [.watch [97], .update [97] (m9desc 1 m9GET)] m9GET (m9desc 2 m9PUT)
+    (m9desc 3 m9GET) rfl (by decide) (by decide) (by decide)).2
+  have e : orderOf (PatState.init.run (fun _ => true) [.watch [97], .update [97] (m9desc 1 m9GET)]) m9GET = [[97]] := by decide
+  rw [e] at h
+  exact h
